@@ -43,7 +43,26 @@ impl<'a> ResultTextSelection<'a> {
 }
 
 impl VxTextResource {
-    pub uninterp spec fn textlen(&self) -> usize;
+    pub uninterp spec fn textlen_s(&self) -> usize;
+    /// stands for TextResource::textlen
+    #[verifier::external_body]
+    #[verifier::when_used_as_spec(textlen_s)]
+    pub fn textlen(&self) -> (r: usize)
+        ensures r == self.textlen_s(),
+    { unimplemented!() }
+    /// ghost: the keys of the position index in [begin, end) at which, per mode, a selection begins / ends / either is recorded
+    /// (Both: every key, milestones included), ascending
+    pub uninterp spec fn index_positions(&self, mode: PositionMode, begin: usize, end: usize) -> Seq<usize>;
+    /// stands for TextResource::positions (src/resources.rs): the whole index
+    #[verifier::external_body]
+    pub fn positions<'a>(&'a self, mode: PositionMode) -> (r: VxPositions<'a>)
+        ensures r.remaining() == self.index_positions(mode, 0, usize::MAX),
+    { unimplemented!() }
+    /// stands for TextResource::positions_in_range (src/resources.rs): BTreeMap::range over [begin, end)
+    #[verifier::external_body]
+    pub fn positions_in_range<'a>(&'a self, mode: PositionMode, begin: usize, end: usize) -> (r: VxPositions<'a>)
+        ensures r.remaining() == self.index_positions(mode, begin, end),
+    { unimplemented!() }
     /// ghost: the position index entry at p, if any
     pub uninterp spec fn entry(&self, p: usize) -> Option<PositionIndexItem>;
 
@@ -58,8 +77,14 @@ impl<'a> VxResultResource<'a> {
     pub uninterp spec fn res(&self) -> VxTextResource;
 
     #[verifier::external_body]
-    pub fn as_ref(&self) -> (r: &VxTextResource)
+    pub fn as_ref(&self) -> (r: &'a VxTextResource)
         ensures *r == self.res(),
+    { unimplemented!() }
+
+    /// stands for the derived Clone of ResultItem (two references)
+    #[verifier::external_body]
+    pub fn clone(&self) -> (r: Self)
+        ensures r == *self,
     { unimplemented!() }
 
     /// stands for FindText::textselection on a resource: Ok(begin..end) iff the offset is accepted (C04)
@@ -89,7 +114,7 @@ def build():
     u.item(T, 'struct', 'TextSelectionHandle', keep_derives=['Clone', 'Copy'])
     u.item(T, 'struct', 'PositionIndexItem', keep_derives=[],
            rewrites=[('R-smallvec', r'SmallVec<\[\(usize, TextSelectionHandle\); 1\]>', 'Vec<(usize, TextSelectionHandle)>')])
-    u.trusted_text(STUBS, 'external_body stubs: VxPositions (ascending position-index keys), VxResultResource/VxTextResource (position lookup, textselection acceptance as proved in u_off), ResultTextSelection (opaque)')
+    u.trusted_text(STUBS, 'external_body stubs: VxPositions (ascending position-index keys), VxResultResource/VxTextResource (position lookup, positions / positions_in_range as the uninterpreted index_positions(mode, begin, end), textlen, clone, textselection acceptance as proved in u_off), ResultTextSelection (opaque)')
     u.impl('src/selector.rs', 'impl Offset', [
         Fn('simple', props=P, ret='r', ensures=[('fields', 'r.begin == Cursor::BeginAligned(begin) && r.end == Cursor::BeginAligned(end)')]),
     ])
@@ -97,6 +122,7 @@ def build():
         Fn('len_begin2end', props=P, ret='r', ensures=[('len', 'r == self.begin2end@.len()')]),
         Fn('len_end2begin', props=P, ret='r', ensures=[('len', 'r == self.end2begin@.len()')]),
     ])
+    u.item('src/resources.rs', 'enum', 'PositionMode', keep_derives=[])
     u.item(F, 'struct', 'SegmentationIter', keep_derives=[],
            rewrites=[('R-opaque', r"Box<dyn Iterator<Item = &'a usize> \+ 'a>", "VxPositions<'a>"),
                      ('R-opaque', r"ResultItem<'a, TextResource>", "VxResultResource<'a>"),
@@ -135,4 +161,13 @@ def build():
                decreases='self.positions.remaining().len()')},
            ),
     ], verus_header="impl<'a> SegmentationIter<'a>")
+    # the constructors: which positions the iterator is given, and where it starts and ends
+    u.impl(F, "impl<'store> ResultItem<'store, TextResource>", [
+        Fn('segmentation', props=P, ret='r',
+           ensures=[('positions', 'r.positions.remaining() == self.res().index_positions(PositionMode::Both, 0, usize::MAX)'),
+                    ('range', 'r.cursor == 0 && r.end == self.res().textlen()'), ('resource', 'r.resource == *self')]),
+        Fn('segmentation_in_range', props=P, ret='r',
+           ensures=[('positions', 'r.positions.remaining() == self.res().index_positions(PositionMode::Both, begin, end)'),
+                    ('range', 'r.cursor == begin && r.end == end'), ('resource', 'r.resource == *self')]),
+    ], verus_header="impl<'store> VxResultResource<'store>")
     return u
